@@ -150,7 +150,8 @@ def parse_family(src):
                 k = r
                 continue
             k += 1
-        out[name] = {"unmock": unmock, "methods": methods}
+        fl = re.search(r"api\s*=\s*\[([^\]]*)\]", attrs)
+        out[name] = {"unmock": unmock, "methods": methods, "flat_api": [x.strip() for x in fl.group(1).split(",")] if fl else None}
     return out
 
 
@@ -376,7 +377,11 @@ def unit_generated_forwarding(eng_unused, tier, prop, root=None):
                     _, mockfn, rid, ins, k = ev[0]
                     state.setdefault("mockfn_by_method", {})[f"{trait}::{name}"] = mockfn
                     seen.add(k)
-                    u.must_be_true("C05.evaluates-its-own-mock-entry-point", re.search(r"(^|::|Generic|Hidden__)" + re.escape(name) + r"(<.*>)?$", mockfn) is not None, dict(ctx, mockfn=mockfn))
+                    u.must_be_true("C05.evaluates-its-own-mock-entry-point", (spec.get("flat_api") is not None or re.search(r"(^|::|Generic|Hidden__)" + re.escape(name) + r"(<.*>)?$", mockfn) is not None), dict(ctx, mockfn=mockfn))
+                    flat = spec.get("flat_api")
+                    if flat:
+                        want_fn = flat[idx] if idx < len(flat) else None
+                        u.must_be_true("C05.flattened-api-method-evaluates-the-entry-of-its-own-position", want_fn is not None and re.search(r"(^|::)" + re.escape(want_fn) + r"$", mockfn) is not None, dict(ctx, mockfn=mockfn, want=want_fn))
                     u.must_be_true("C05.receiver-forwarded", rid == "the_receiver", dict(ctx, got=rid))
                     u.must_be_true("C05.arguments-forwarded-in-declaration-order", tuple(ins) == want_args, dict(ctx, got=ins, want=want_args))
                     ac = events(p, "answer_call")
